@@ -11,6 +11,11 @@ CHECKS = {
     text="Kernel-checked theorems for every byte list: url_decode(url_encode bs) = Some bs, URL-safe alphabet, length never 1 mod 4, and the zlib/json pipeline under oracle round-trip hypotheses. The replacement chains, padding rule and call pipelines are regenerated from types.py each run and proved equal to the model; the model's codec is compared with encode_data/decode_data on byte strings of every length 0..300(+) and on generated dictionaries.",
     note="Trusted: Coq kernel; Base64/ShareLink model (compared with the implementation each run); zlib/json/UTF-8 round-trip hypotheses; translator tools/pyt2coq/share.py.",
     design="4 C18"),
+ "C16": dict(
+    category="proof", technique="Coq finite-forall over regenerated tables (vm_compute + forallb_forall), exhaustive; reflection cross-check",
+    text="The structure classes (716), enums (27) and intrinsic wrappers (147) are re-read from the source text on every run and the kernel checks, for every row: stored hash = signed CRC-32 of the prefab name (CRC computed in Coq), plural/singular pairing with equal hash and singleton, slot aliases resolve to the numbered slot, enum values injective, wrapper opcode/operand order/result flag against the hand-written IC10 signature table. Exhaustive over the tables; the nine wrappers that fail are excluded by name in the theorem, refuted in C16_findings.v and listed as a known finding.",
+    note="Trusted: Coq kernel; Sig.v (IC10 signatures, hand-written); CRC32.v (compared with zlib each run); translator tables.py (cross-checked against the imported package by reflection each run).",
+    design="4 C16"),
 }
 
 NOT_YET = {}
